@@ -5,8 +5,8 @@ from core import Case, canon, hx, REPO
 import c01
 
 PROP = "C10"
-LEAN_MODULES = ["DrxProps.C10", "DrxProps.C10Cast", "DrxProps.C10Idx", "DrxProps.C10Snd", "DrxProps.C10Bitd"]
-FAMILIES = ["riff", "cast", "idx", "text", "snd"]
+LEAN_MODULES = ["DrxProps.C10", "DrxProps.C10Cast", "DrxProps.C10Idx", "DrxProps.C10Snd", "DrxProps.C10Bitd", "DrxProps.C10Score"]
+FAMILIES = ["riff", "cast", "idx", "text", "snd", "score"]
 RULE = ("for each public decoder: real files from the repo's fixtures (<= 64 KiB), mutated copies with every 1/2/4-byte field at the "
         "leading offsets set to 0, 1, -1, max, min and self-referential (len) values, truncations at many offsets, random byte strings, and "
         "generated containers/records; each call runs in a worker under an interval-timer alarm (hang => 'timeout') and an address-space "
@@ -409,6 +409,8 @@ TWINS = {
     "snd": (lambda data, aux: f"snd steps {hx(data)}",
             [("drxtract.snd.format", "parse_snd_fmt1"), ("drxtract.snd.format", "parse_snd_commands"),
              ("drxtract.snd.snd2sampled", "snd_to_sampled"), ("drxtract.snd.command.bufferCmd", "_get_frames")]),
+    "vwsc": (lambda data, aux: f"score stepsum {hx(data)}",
+             [("drxtract.vwsc.vwsc", "parse_vwsc_data"), ("drxtract.vwsc.cparser", "parse_vwsc_channels"), ("drxtract.vwsc.vwsc", "vwsc_to_score")]),
     "key": (lambda data, aux: f"idx steps key {aux.get('order', '>')} {hx(data)}", [("drxtract.key.key", "parse_key_file_data")]),
     "cas": (lambda data, aux: f"idx steps cas {hx(data)}", [("drxtract.cas.cas", "parse_cas_file_data")]),
     "lctx": (lambda data, aux: f"idx steps lctx {hx(data)}", [("drxtract.lctx.lctx", "parse_lctx_file_data")]),
